@@ -28,6 +28,9 @@ type Config struct {
 	// OddSources: one source in eight is a 3+-segment source holding percent escapes, reserved
 	// characters or non-ASCII text (left as written; outside C17's domain, inside C09's and C02's).
 	OddSources bool
+	// EmptyCfgBias: one plugin config in three is an empty, non-nil collection (`{}` or `[]`) - the
+	// shape an observer that "tidies up" writes into (C19's rounds are few).
+	EmptyCfgBias bool
 	// MixedKinds: one step mapping in six also carries one or two kind-determining keys of other
 	// families (`wait` next to `command`, `trigger` next to `block`, ...). Only for checks that do not
 	// predict the step kind from the generator's plan (C09).
@@ -976,6 +979,14 @@ func (g *G) pluginConfig() *yaml.Node {
 		return a
 	}
 	var n *yaml.Node
+	if g.C.EmptyCfgBias && g.coin("emptycfgbias", 3) {
+		if g.coin("emptyseq", 2) {
+			g.feat("cfg-empty-seq")
+			return SeqNode(true)
+		}
+		g.feat("cfg-empty-map")
+		return MapNode(true)
+	}
 	switch g.intn("cfgform", 0, 9) {
 	case 0:
 		g.feat("cfg-null")
